@@ -80,11 +80,14 @@ class Project:
                               depfile=s.get("depfile", ""), msvc=s.get("msvc", False),
                               eff=copy.deepcopy(s["eff"])))
         objs = [o for s in self.objs() for o in s["outs"]]
-        louts = ["bin"]; liouts = ["bin.map"] if self.multi else []
+        louts = ["bin"]; liouts = ["bin.map"] if self.multi is True else []
         link = step(louts, objs, iouts=liouts, cmd=self.link_cmd,
                     rsp="bin.rsp" if self.use_rsp else "", rspc=self.rspc if self.use_rsp else "",
                     eff={"kind": "write", "reads": []})
         steps.append(link)
+        if self.multi == "moved":
+            # the second output of the link step now belongs to a step of its own
+            steps.append(step(["bin.map"], ["bin"], cmd="mapgen", eff={"kind": "write", "reads": []}))
         if self.hdrcheck:
             hs = [h for h in reversed(self.headers) if h not in getattr(self, "headers_gone", set())]
             if hs:
@@ -196,7 +199,7 @@ def history(rnd, idx, tier):
                 a = rnd.randint(1, n); b = rnd.randint(a, n)
                 st = dict(p.style); st["include"] = (a, b); p.style = st
             manifest_changed = True
-        elif r < 0.96 and p.objs():
+        elif r < 0.95 and p.objs():
             # a compile stops (or starts) reporting dependencies: the rule loses its depfile
             s = rnd.choice(p.objs())
             if s.get("depfile") or s.get("msvc"):
@@ -206,7 +209,12 @@ def history(rnd, idx, tier):
                 s["depfile"], s["msvc"] = s["saved_dep"]
             manifest_changed = True
         else:
-            p.multi = not p.multi; manifest_changed = True      # the output set of link changes
+            # the output set of link changes: second output added, dropped, or moved to another step
+            if p.multi is True and rnd.random() < 0.6:
+                p.multi = "moved"
+            else:
+                p.multi = rnd.choice([x for x in (False, True, "moved") if x != p.multi])
+            manifest_changed = True
         if manifest_changed:
             g = p.graph()
             st = dict(p.style)
